@@ -407,7 +407,12 @@ class CFG:
         unit_pairs = self.get_unit_pairs()
         generating = self.get_generating_symbols()
         reachables = self.get_reachable_symbols()
+        has_unit_loop = any(len(production.body) == 1 and
+                            production.body[0] == production.head and
+                            isinstance(production.body[0], Variable)
+                            for production in self._productions)
         if (len(nullables) != 0 or len(unit_pairs) != len(self._variables) or
+                has_unit_loop or
                 len(generating) !=
                 len(self._variables) + len(self._terminals) or
                 len(reachables) !=
